@@ -404,6 +404,16 @@ func (cd *CloneDetector) extractFragmentsRecursiveWithSource(node *parser.Node, 
 	for _, orelseNode := range node.Orelse {
 		cd.extractFragmentsRecursiveWithSource(orelseNode, filePath, sourceCode, fragments)
 	}
+
+	// Definitions in except clauses and finally blocks (e.g. a fallback
+	// implementation under `except ImportError:`) are fragments too.
+	for _, handlerNode := range node.Handlers {
+		cd.extractFragmentsRecursiveWithSource(handlerNode, filePath, sourceCode, fragments)
+	}
+
+	for _, finalNode := range node.Finalbody {
+		cd.extractFragmentsRecursiveWithSource(finalNode, filePath, sourceCode, fragments)
+	}
 }
 
 // extractSourceContent extracts source code content for a given location
@@ -486,6 +496,14 @@ func (cd *CloneDetector) extractFragmentsRecursive(node *parser.Node, filePath s
 
 	for _, orelseNode := range node.Orelse {
 		cd.extractFragmentsRecursive(orelseNode, filePath, fragments)
+	}
+
+	for _, handlerNode := range node.Handlers {
+		cd.extractFragmentsRecursive(handlerNode, filePath, fragments)
+	}
+
+	for _, finalNode := range node.Finalbody {
+		cd.extractFragmentsRecursive(finalNode, filePath, fragments)
 	}
 }
 
